@@ -196,6 +196,7 @@ func runC15(c *vc.Ctx) error {
 	fmt.Printf("C15 (c) done: %d evaluations so far\n", c.Ev.Evals())
 	c15MultiKey(c, s0, liveNs, eng)
 	fmt.Printf("C15 (d) done: %d evaluations so far\n", c.Ev.Evals())
+	c.Ev.Set("peak_scratch_mib", dirSize(c.Scratch)>>20)
 	return nil
 }
 
